@@ -53,6 +53,9 @@ _TLAPS = {
     "ColexNumeric": " Unbounded (TLAPS, spec/tlaps/ColexNumeric.tla, thorough tier): colexicographic order = numeric order of the packed integers and packing is injective, for any base and length.",
     "TableFoldProof": " Unbounded (TLAPS, spec/tlaps/TableFoldProof.tla): the folded inverse map is a function of the forward map alone, for any sets of codons and amino acids.",
 }
+LEVEL_TEXT["C02"] += (" One listed known finding (known_findings.json D12: sequences that store an alternative bit pattern compare and hash by stored bits) "
+                      "is reported as KNOWN-FINDING by its own tagged scenario and suppresses nothing else.")
+LEVEL_TEXT["C05"] = LEVEL_TEXT["C05"].replace("all 7x256 codec cells", "all 9x256 codec cells (seven built-in codecs and two derived in the harness)")
 from plan import PLAN as _PLAN
 for _pid, _pl in _PLAN.items():
     for _tier in ("quick", "thorough"):
